@@ -18,8 +18,8 @@ EXTENDS Grid, Json, IOUtils, TLCExt
 
 Traces == JsonDeserialize(IOEnv.TRACE_FILE)
 
-VARIABLES tid, l, t, bad
-vars == <<tid, l, t, bad>>
+VARIABLES tid, l, t, u, bad
+vars == <<tid, l, t, u, bad>>
 
 Has(r, f) == f \in DOMAIN r
 
@@ -44,9 +44,9 @@ StepOK(ev, cur, next) ==
       [] ev.op.op = "csv" -> Has(ev, "values") /\ ev.values = CsvRows(cur) /\ ev.post = cur
       [] OTHER -> ev.post = next
 
-Verdict(ev, next) ==
+VerdictAt(ev, cur, next) ==
     (IF Has(ev, "exc") THEN {<<"exc", ev.exc>>} ELSE {})
-    \cup (IF ~StepOK(ev, t, next) THEN {<<"xml", "post">>} ELSE {})
+    \cup (IF ~StepOK(ev, cur, next) THEN {<<"xml", "post">>} ELSE {})
     \cup (IF Has(ev, "bad") /\ ev.bad # <<>> THEN {<<"struct", ev.bad[1]>>} ELSE {})
     \cup (IF ev.kind = "table" /\ ~WellFormed(ev.post) THEN {<<"struct", "row-wider-than-columns">>} ELSE {})
     \cup (IF ev.kind = "table" /\ Has(ev, "live") THEN ReadDiffs("live", ev.live, Reads(ev.post)) ELSE {})
@@ -57,15 +57,31 @@ Init ==
     /\ tid = 1
     /\ l = 1
     /\ t = Traces[1][1].pre
+    /\ u = <<>>          \* <<state>> of the clone (C10) once one was taken
     /\ bad = {}
+
+(* C10: a "clone" event creates a second object whose model state starts   *)
+(* equal; later events carry side = "b" when they act on the clone, and     *)
+(* `other` = what the object NOT acted upon looks like afterwards           *)
+Side(ev) == IF Has(ev, "side") THEN ev.side ELSE "a"
+Cur(ev) == IF Side(ev) = "b" THEN u[1] ELSE t
+Other(ev) == IF Side(ev) = "b" THEN t ELSE u[1]
+
+TwinVerdict(ev) ==
+    (IF ev.op.op = "clone" /\ ev.twin # t THEN {<<"clone", "differs-at-birth">>} ELSE {})
+    \cup (IF ev.op.op = "clone" /\ ev.post # t THEN {<<"clone", "cloning-changed-original">>} ELSE {})
+    \cup (IF ev.op.op # "clone" /\ Has(ev, "other") /\ u # <<>> /\ ev.other # Other(ev) THEN {<<"clone", "twin-changed">>} ELSE {})
 
 Consume ==
     /\ l <= Len(Traces[tid])
     /\ LET ev == Traces[tid][l]
-           next == Step(ev, t)
-           v == Verdict(ev, next)
+           cur == Cur(ev)
+           next == IF ev.op.op = "clone" THEN cur ELSE Step(ev, cur)
+           v == (IF ev.op.op = "clone" THEN {} ELSE VerdictAt(ev, cur, next)) \cup TwinVerdict(ev)
        IN /\ bad' = bad \cup {[tid |-> tid, l |-> l, clause |-> c[1], what |-> c[2]] : c \in v}
-          /\ t' = ev.post
+          /\ t' = IF ev.op.op = "clone" THEN t ELSE IF Side(ev) = "b" THEN t ELSE ev.post
+          /\ u' = IF ev.op.op = "clone" THEN <<ev.twin>>
+                  ELSE IF Side(ev) = "b" THEN <<ev.post>> ELSE u
     /\ l' = l + 1
     /\ UNCHANGED tid
 
@@ -75,6 +91,7 @@ NextTrace ==
     /\ tid' = tid + 1
     /\ l' = 1
     /\ t' = Traces[tid + 1][1].pre
+    /\ u' = <<>>
     /\ UNCHANGED bad
 
 Next == Consume \/ NextTrace
